@@ -422,5 +422,27 @@ def g_cache_kernel_wrapper(tier):
   return [Result(oid="cache_kernel#wrapper.contract", status=st, kind="MEMO_SOUND", func="warp_util:cache_kernel", backend="native execution of the extracted function (bounded)", bound="11 argument shapes", cases=len(cases), meta={"function": "warp_util:cache_kernel", "source_hash": fi.source_hash, "goal": "equal arguments -> same kernel object; arguments that differ in value, list content, size or factory name -> different objects", "failed_cases": fails})]
 
 
+def g_fresh_memory(tier):
+  """(G5) bounded native probe: forward() on a fresh Data does not depend on the content of freed device memory
+  (scenarios/c36_fresh_memory.py). Three configurations; a failing one is a concrete witness."""
+  import subprocess
+
+  from wpv.consts import REPO, VENV_PY
+
+  here = os.path.dirname(os.path.dirname(os.path.abspath(__file__)))
+  out = []
+  for jac, sleep in (("sparse", "1"), ("dense", "1"), ("sparse", "0")):
+    cmd = [VENV_PY, os.path.join(here, "scenarios", "c36_fresh_memory.py"), jac, sleep]
+    r = subprocess.run(cmd, capture_output=True, text=True, env=dict(os.environ, PYTHONPATH=REPO), cwd="/")
+    tag = f"fresh_memory[jacobian={jac},sleep={sleep}]"
+    tail = (r.stdout + r.stderr).strip().splitlines()[-1:] or [""]
+    out.append(Result(oid=f"{tag}.probe", status="bounded", kind="bounded", func="forward:forward", bound="4 free bodies, no constraints, 8 trials with NaN-poisoned freed memory", cases=8, reason=tail[0][:200], meta={"function": "forward:forward", "goal": "bounded: forward() on a fresh Data is independent of freed-memory content"}))
+    if r.returncode == 1:
+      out.append(Result(oid=tag, status="violated", kind="host", func="forward:forward", backend="native run", replay={"native_cmd": ["VENV_PYTHON", "scenarios/c36_fresh_memory.py", jac, sleep], "exit": 1, "reproduced": True, "output": (r.stdout + r.stderr)[-1200:]}, meta={"function": "forward:forward", "goal": "the result of forward() on a fresh Data does not depend on what freed device memory contains (what ran earlier in the process)", "output": tail[0][:300]}))
+    elif r.returncode != 0:
+      out.append(Result(oid=tag, status="crash", reason=(r.stdout + r.stderr)[-600:]))
+  return out
+
+
 def groups(tier):
-  return [("global_frame", g_global_frame), ("memo_decorators", g_memo_decorators), ("cache_kernel_factories", g_cache_kernel_factories), ("factory_call_args", g_factory_call_args), ("cache_kernel_wrapper", g_cache_kernel_wrapper)]
+  return [("fresh_memory", g_fresh_memory), ("global_frame", g_global_frame), ("memo_decorators", g_memo_decorators), ("cache_kernel_factories", g_cache_kernel_factories), ("factory_call_args", g_factory_call_args), ("cache_kernel_wrapper", g_cache_kernel_wrapper)]
